@@ -91,6 +91,7 @@ struct Sys {
     names: Names,
     ids: Vec<(String, BytesN<32>)>,
     nonce: i64,
+    selfprop: bool,
 }
 
 fn salt_bytes(e: &Env, s: i64) -> BytesN<32> {
@@ -98,7 +99,9 @@ fn salt_bytes(e: &Env, s: i64) -> BytesN<32> {
 }
 
 impl Sys {
-    fn new(execs: &[String], min0: u32) -> Sys {
+    /// `selfprop`: the controller itself is among the proposers (hence cancellers) it is constructed with -
+    /// a state an operating controller reaches by a matured self-administration grant_role(controller, ...)
+    fn new(execs: &[String], min0: u32, selfprop: bool) -> Sys {
         let e = new_env(&LedgerCfg { seq: NOW0, ..Default::default() });
         let mut names = Names { fwd: Default::default() };
         for a in ACCTS {
@@ -110,9 +113,15 @@ impl Sys {
         for a in execs {
             ex.push_back(names.get(a));
         }
-        let c = e.register(TimelockController, (min0, soroban_sdk::vec![&e, names.get("p")], ex, None::<Address>));
+        let c = if selfprop {
+            use soroban_sdk::testutils::Address as _;
+            let at = Address::generate(&e);
+            e.register_at(&at, TimelockController, (min0, soroban_sdk::vec![&e, names.get("p"), at.clone()], ex, None::<Address>))
+        } else {
+            e.register(TimelockController, (min0, soroban_sdk::vec![&e, names.get("p")], ex, None::<Address>))
+        };
         names.insert("c", c.clone());
-        let mut sys = Sys { e, c, target, names, ids: vec![], nonce: 1 };
+        let mut sys = Sys { e, c, target, names, ids: vec![], nonce: 1, selfprop };
         // predecessors first
         for pass in 0..2 {
             for (name, _, pred, _) in OPTAB.iter() {
@@ -414,7 +423,7 @@ fn reset_event(sys: &Sys, execs: &[String], min0: u32) -> Value {
         optab.insert(name.to_string(), json!({"call": call, "pred": pred, "salt": salt}));
     }
     json!({"op": {"op": "reset", "id": "none", "call": "none", "who": "none", "auth": false, "delay": 0, "entry": false,
-                  "metas": [], "sub": "none", "ctxs": [], "xauth": [], "dt": 0, "execs": execs, "min0": min0},
+                  "metas": [], "sub": "none", "ctxs": [], "xauth": [], "dt": 0, "execs": execs, "min0": min0, "selfprop": sys.selfprop},
            "optab": Value::Object(optab), "deny": ["n"], "now": NOW0, "res": "ok", "err": 0, "obs": sys.obs()})
 }
 
@@ -437,7 +446,8 @@ fn main() {
                     Some(m) => m,
                     None => b.ops.first().and_then(|o| o.get("m0")).and_then(|v| v.as_u64()).unwrap_or(1),
                 } as u32;
-                let mut sys = Sys::new(&execs, min0);
+                let selfprop = b.cfg.get("selfprop").and_then(|v| v.as_bool()).unwrap_or(false);
+                let mut sys = Sys::new(&execs, min0, selfprop);
                 t.reset(reset_event(&sys, &execs, min0));
                 for op in &b.ops {
                     let ev = sys.step(op);
@@ -456,7 +466,8 @@ fn main() {
                     _ => vec!["x".into(), "n".into()],
                 };
                 let min0 = *pick(&mut r, &[0u32, 1, 1, 2]);
-                let mut sys = Sys::new(&execs, min0);
+                let selfprop = (run / 3) % 4 == 3;
+                let mut sys = Sys::new(&execs, min0, selfprop);
                 let mut last = reset_event(&sys, &execs, min0);
                 t.reset(last.clone());
                 for _ in 0..len {
@@ -481,7 +492,7 @@ fn main() {
                             op["id"] = json!(if !unset.is_empty() && r.gen_bool(0.85) { *pick(&mut r, &unset) } else { *pick(&mut r, &names) });
                             let props = holders("proposer");
                             op["who"] = json!(if !props.is_empty() && r.gen_bool(0.85) { pick(&mut r, &props).as_str() } else { *pick(&mut r, &ACCTS) });
-                            op["auth"] = json!(r.gen_bool(0.85));
+                            op["auth"] = json!(r.gen_bool(0.85) && op["who"] != "c");
                             op["delay"] = json!(if r.gen_bool(0.8) { min + r.gen_range(0..2) } else { r.gen_range(0..4) });
                         }
                         "cancel" => {
@@ -490,7 +501,7 @@ fn main() {
                             op["id"] = json!(if !pend.is_empty() && r.gen_bool(0.8) { *pick(&mut r, &pend) } else { *pick(&mut r, &names) });
                             let cs = holders("canceller");
                             op["who"] = json!(if !cs.is_empty() && r.gen_bool(0.7) { pick(&mut r, &cs).as_str() } else { *pick(&mut r, &ACCTS) });
-                            op["auth"] = json!(r.gen_bool(0.8));
+                            op["auth"] = json!(r.gen_bool(0.8) && op["who"] != "c");
                         }
                         "execute" => {
                             let ready = by_state("Ready");
